@@ -1,4 +1,4 @@
-(* C05: the STRICT-only branches of child admission and of textual leaf construction only REFUSE:
+(* C05: the STRICT-only branches of child acceptance and of textual leaf construction only REFUSE:
    whatever they accept, TOLERANT accepts with the same result. *)
 From Coq Require Import List Bool ZArith NArith Init.Byte Lia.
 From HL7 Require Import Lib.Str Model.Ec Model.Result Model.Ref Model.Tree Model.Parser Model.Leaf.
